@@ -20,21 +20,29 @@ ASSUMPTIONS = ["latest admissible rejection stage per fault: parse for literal f
                "expand_macros for faults arising by macro substitution, run otherwise",
                "zero/negative strides and negative loop counts are not in the statement and not generated"]
 TIERS = {"quick": {"shards": 8, "budget_s": 45}, "thorough": {"shards": 16, "budget_s": 360}}
-REQUIRE = {"internal-context-names-observed": 1, "faulty-cases": 2000, "twin-cases": 2000, "twin-accepted": 2000, "precedence-probes": 1}
+REQUIRE = {"route:parser-let-map": 500, "route:parser-let": 500, "internal-context-names-observed": 1, "faulty-cases": 2000, "twin-cases": 2000, "twin-accepted": 2000, "precedence-probes": 1}
 
 STAGES = ["parse", "fill_in_let", "expand_macros", "run"]
 
 
-def pipeline(prog, ov, native=True):
-    """Run the stages separately; returns (stage reached or rejecting stage, outcome tuple, result)."""
+def pipeline(prog, ov, native=True, route="passes"):
+    """Run the stages separately; returns (stage reached or rejecting stage, outcome tuple, result).
+    route: 'passes' = parse, fill_in_let(ov), expand_macros, run;  'parser-let' / 'parser-let-map' = the parser is asked
+    to substitute lets (and aliases) itself: parse_jaqal_string(expand_let=True | expand_let_map=True, override_dict=ov)."""
     text = sx.to_text(prog)
-    o = lib.outcome(lib.parse, text, X.native() if native else None)
-    if o[0] != "ok":
-        return "parse", o, None
-    c = o[1]
-    o = lib.outcome(lib.fill_in_let, c, ov or None)
-    if o[0] != "ok":
-        return "fill_in_let", o, None
+    if route == "passes":
+        o = lib.outcome(lib.parse, text, X.native() if native else None)
+        if o[0] != "ok":
+            return "parse", o, None
+        c = o[1]
+        o = lib.outcome(lib.fill_in_let, c, ov or None)
+        if o[0] != "ok":
+            return "fill_in_let", o, None
+    else:
+        kw = {"expand_let": True} if route == "parser-let" else {"expand_let_map": True}
+        o = lib.outcome(lib.parse, text, X.native() if native else None, override_dict=ov or None, **kw)
+        if o[0] != "ok":
+            return "parse", o, None  # one call: parsing and substitution cannot be told apart
     o = lib.outcome(lib.expand_macros, o[1])
     if o[0] != "ok":
         return "expand_macros", o, None
@@ -51,12 +59,18 @@ def judge(case):
     prog = case_prog(case)
     ov = dict(case.get("ov") or {})
     faulty = case["fault"] is not None
-    stage, o, res = pipeline(prog, ov)
+    stage, o, res = pipeline(prog, ov, route=case.get("route", "passes"))
     fails = []
     info = {"stage": stage, "outcome": o[0]}
     if o[0] == "budget":
         return "skipped:step-budget", fails, info
     if not faulty:
+        if stage != "done" and case.get("route") == "parser-let-map" and o[0] == "jaqal":
+            # fill_in_map documents that it cannot rewrite references that depend on a macro parameter; if the
+            # same legal program passes without the alias rewriting this is that limitation, not a rejection by C14's rules
+            st2, o2, _ = pipeline(prog, ov, route="parser-let")
+            if st2 == "done":
+                return "skipped:fill_in_map-precondition", fails, info
         if stage != "done":
             fails.append(("twin-rejected:%s:%s" % (case.get("twin_of"), stage), {"error": str(o[1:3])[:300]}))
         return "ok", fails, info
@@ -439,7 +453,8 @@ def precedence_probe(ctx):
 def process(ctx, case):
     rec = ctx.rec
     st, fails, info = judge(case)
-    rec.case([case["prog"], sorted((case.get("ov") or {}).items())], nontrivial=True)
+    rec.case([case["prog"], sorted((case.get("ov") or {}).items()), case.get("route")], nontrivial=True)
+    rec.count("route:" + case.get("route", "passes"))
     if st != "ok":
         rec.count(st)
         return
@@ -453,7 +468,8 @@ def process(ctx, case):
         if info["outcome"] == "jaqal":
             rec.count("rejected-at:" + info["stage"])
     for clause, detail in fails:
-        rec.violation(sig("C14", clause), detail, case)
+        r = case.get("route", "passes")
+        rec.violation(sig("C14", clause, () if r == "passes" else ("via-" + r,)), detail, case)
 
 
 def shard(ctx):
@@ -470,9 +486,10 @@ def shard(ctx):
         i += 1
         cases = gen_cases(ctx.rng)
         for c in cases:
-            process(ctx, {"fault": c["fault"], "latest": c["latest"], "prog": c["prog"], "ov": c["ov"]})
+            route = ctx.rng.choice(["passes", "passes", "parser-let", "parser-let-map"])
+            process(ctx, {"fault": c["fault"], "latest": c["latest"], "prog": c["prog"], "ov": c["ov"], "route": route})
             tp, tov = c["twin"]
-            process(ctx, {"fault": None, "twin_of": c["fault"].split(":")[0], "prog": tp, "ov": tov})
+            process(ctx, {"fault": None, "twin_of": c["fault"].split(":")[0], "prog": tp, "ov": tov, "route": route})
         if i == 1:
             for c in cases[:3]:
                 rec.sample({"fault": c["fault"], "ov": c["ov"], "text": sx.to_text(c["prog"])})
